@@ -848,7 +848,9 @@ def check(pid, tier, seed):
             path = hc.write_replay(pid, dict(property=pid, kind="broken-tie", what="harness does not build against /repo", log=log[-3000:]))
             print("VIOLATION property=%s replay=%s no-failing-input-found" % (pid, path))
             return 1
-    # 3. families
+    # 3. families (two runs of the same property share .build/run/<id>: one at a time; the lock goes with the process)
+    run_lock = hc.Lock("run-" + pid)
+    run_lock.__enter__()
     results = []
     corpus = os.path.join(V, "corpus", pid)
     for f in cfg["families"]:
